@@ -79,6 +79,16 @@ pub fn cases(ctx: &Ctx) -> Vec<Case> {
         }
         v.push(Case::Extract { prog: p, subset, sink });
     }
+    // steered shapes: a compressed block ending one byte after an encryption chunk edge (that byte not
+    // needed by the decoder), read sequentially by the extraction
+    if k.is_prod() {
+        for (layers, grid) in [(3u8, crate::shapes::Grid::Chunk), (2, crate::shapes::Grid::Window)] {
+            if let Some(p) = crate::shapes::block_end(&k, ctx.seed, layers, 1, grid, 1, true, false) {
+                v.push(Case::Extract { prog: p.clone(), subset: Subset::All, sink: Sched::All });
+                v.push(Case::Extract { prog: p, subset: Subset::One(2), sink: Sched::Max(4096) });
+            }
+        }
+    }
     // marker-less archives (at most 64 files: with 254 files the footer's first byte is 0xFE)
     let m = match (k.is_prod(), ctx.quick()) {
         (false, true) => 300,
